@@ -111,7 +111,9 @@ def body(ctx: Ctx, p: dict) -> None:
             rec = {"scale": m.current_scale, "shape": (int(m.left_img.sizes["row"]), int(m.left_img.sizes["col"])),
                    "min": np.array(m.disp_min, dtype=float).copy(), "max": np.array(m.disp_max, dtype=float).copy(),
                    "axis": m.left_cv.coords["disp"].data.copy(),
-                   "finite": bool(np.isfinite(m.left_img["im"].data).all() and np.isfinite(m.right_img["im"].data).all())}
+                   "finite": bool(np.isfinite(m.left_img["im"].data).all() and np.isfinite(m.right_img["im"].data).all()),
+                   "msk": {side: (img["msk"].data.copy() if "msk" in img else None)
+                           for side, img in (("left", m.left_img), ("right", m.right_img))}}
             if has_val and m.right_cv is not None:
                 rec["rmin"] = np.array(m.right_disp_min, dtype=float).copy()
                 rec["rmax"] = np.array(m.right_disp_max, dtype=float).copy()
@@ -171,6 +173,23 @@ def body(ctx: Ctx, p: dict) -> None:
     if not all(m["finite"] for m in mcs):
         ctx.violation("C15/level-image-not-finite", f"levels {[m['scale'] for m in mcs if not m['finite']]} hold NaN/inf "
                                                     f"radiometry for finite inputs {tag}")
+    # ---- each level carries each image's OWN mask, decimated (masked pixels are filled and flagged 1024 at the coarse levels)
+    conv = gen.conv_kwargs(p["pair"])
+    for side, m_in, val_ in (("left", ml, conv["valid"]), ("right", mr, conv["valid_right"])):
+        if m_in is None:
+            continue
+        for rec in mcs:
+            lvl = rec["scale"]
+            got_m = rec["msk"][side]
+            if lvl == 0 or got_m is None:
+                continue
+            exp_m = np.where(m_in != val_, 1024, m_in)  # masked pixels (no-data or invalid) are filled and flagged
+            for _ in range(lvl):
+                exp_m = exp_m[::sf, ::sf]
+            if got_m.shape != exp_m.shape or not np.array_equal(got_m, exp_m):
+                ctx.violation("C15/level-mask-not-the-image-own-mask", f"{side} image, level {lvl}: mask differs from the decimated "
+                                                                       f"input mask {tag}")
+                break
     # ---- coarsest interval
     f = sf ** (ns - 1)
     c0 = mcs[0]
